@@ -119,12 +119,16 @@ def run(chk: Check):
         # ---------------------------------------------------------- (b) field average, dt ladder
         errs = []
         phi0 = manybody.sdvec(cfgs, wup, wdn)
+        hd_carry = None
         for dt in DTS:
             nodes, om = manybody.gauss_hermite(nchol, 7 if nchol <= 2 else 5)
             K = len(om)
             prop = propagation.propagator_unrestricted(dt=dt, n_walkers=K, n_exp_terms=10)
-            hd = hm.build_measurement_intermediates(dict(hd0), trial, wd)
+            # every other instance re-prepares the SAME dictionary for the next time step, as user code does
+            # (ham_data = ham.build_..._intermediates(ham_data, ...)): nothing prepared for one dt may survive into the next
+            hd = hm.build_measurement_intermediates(hd_carry if (ci % 2 == 1 and hd_carry is not None) else dict(hd0), trial, wd)
             hd = hm.build_propagation_intermediates(hd, prop, trial, wd)
+            hd_carry = hd
             ups = jnp.array(np.tile(wup[None], (K, 1, 1)))
             dns = jnp.array(np.tile(wdn[None], (K, 1, 1)))
             ov0 = trial.calc_overlap([ups, dns], wd)
